@@ -7,7 +7,6 @@ import (
 	"go.nanomsg.org/mangos/v3"
 	"go.nanomsg.org/mangos/v3/internal/core"
 	"go.nanomsg.org/mangos/v3/protocol"
-	"go.nanomsg.org/mangos/v3/protocol/xbus"
 	"go.nanomsg.org/mangos/v3/zzverif/verif"
 	"go.nanomsg.org/mangos/v3/zzverif/vp"
 	"go.nanomsg.org/mangos/v3/zzverif/vt"
@@ -441,9 +440,13 @@ func (s *slowClose) Close() error {
 // never left behind: after Close returned every connection is closed, every
 // pipe id released, no goroutine remains.
 func VH10c_close_window() {
-	lab := "C10/close-window"
+	proto := vp.Names[verif.Param("proto", vp.Index("xbus"))]
+	lab := "C10/close-window/" + proto
 	vt.Install()
-	sc := &slowClose{Protocol: xbus.NewProtocol(), atGate: make(chan struct{}), gate: make(chan struct{})}
+	sc := &slowClose{Protocol: vp.NewProtocol(proto), atGate: make(chan struct{}), gate: make(chan struct{})}
+	// the in-flight connection completes while Close waits inside the protocol's Close, or only after Close has
+	// returned altogether (a transport-level connect that takes its time): then the closed protocol refuses it
+	afterClose := verif.Choice("completes-after-close-returned", 2) == 1
 	sock := protocol.MakeSocket(sc)
 	attached, detached := 0, 0
 	sock.SetPipeEventHook(func(ev mangos.PipeEvent, p mangos.Pipe) {
@@ -488,6 +491,15 @@ func VH10c_close_window() {
 	default:
 		// the protocol is closed last or not reached yet: nothing to hold, go on
 	}
+	if afterClose {
+		if side != 0 {
+			verif.Assume(false) // a closed listener accepts nothing; only a connect in progress can finish this late
+		}
+		close(sc.gate)
+		verif.Quiesce()
+		verif.Assert(cg.Done(), lab+"/close-does-not-return")
+		verif.Reach("connect-finished-after-close")
+	}
 	// the in-flight connection completes now
 	if side == 0 {
 		close(hold)
@@ -495,7 +507,9 @@ func VH10c_close_window() {
 		late = l.Connect("late")
 	}
 	verif.Quiesce()
-	close(sc.gate)
+	if !afterClose {
+		close(sc.gate)
+	}
 	verif.Quiesce()
 	for i := 0; i < 4; i++ {
 		verif.FireTimer()
